@@ -222,9 +222,48 @@ def classify(s):
     return lab
 
 
+def project(o, flavour):
+    """the property fixes only whether the returned value is zero"""
+    t = o.split()
+    if len(t) > 1 and t[1] not in ("~", "0"):
+        t[1] = "nonzero"
+    return " ".join(t)
+
+
+def parse_obs(o):
+    t = o.split()
+    i = 3
+    reps = []
+    for _ in range(int(t[2], 16)):
+        n = int(t[i], 16); ev = [t[i + 1 + 4 * k:i + 5 + 4 * k] for k in range(n)]; i += 1 + 4 * n
+        n = int(t[i], 16); fl = [t[i + 1 + 4 * k:i + 5 + 4 * k] for k in range(n)]; i += 1 + 4 * n
+        n = int(t[i], 16); af = [t[i + 1 + 2 * k:i + 3 + 2 * k] for k in range(n)]; i += 1 + 2 * n
+        if t[i] == "~": sm = None; i += 1
+        else: sm = t[i + 1:i + 8]; i += 8
+        if t[i] == "~": ct = None; i += 1
+        else: ct = t[i + 1:i + 7]; i += 7
+        reps.append(dict(ev=ev, fl=fl, af=af, sm=sm, ct=ct))
+    return dict(escaped=t[0] != "0", ret=t[1], reps=reps)
+
+
 def signature(s, o):
     cfg, tests = parse(s)
-    return "mode=%d tests=%d obs=%s" % (cfg[0], len(tests), o[:60])
+    mode = "cli" if cfg[0] else "registry"
+    if o.startswith("!"):
+        return mode + ": " + o[:80]
+    try:
+        ob = parse_obs(o)
+    except Exception:
+        return mode + ": unreadable observation"
+    if ob["escaped"]:
+        return mode + ": an exception escaped the run"
+    if any(a[0] != "0" for r in ob["reps"] for a in r["af"]):
+        return mode + ": jump-buffer depth not restored after a test"
+    if any(a[1] != "1" for r in ob["reps"] for a in r["af"]):
+        return mode + ": current test/result not restored after a test"
+    if any(r["sm"] is None for r in ob["reps"]):
+        return mode + ": summary missing"
+    return mode + ": trace, failure records, counts or returned value differ from what the program demands"
 
 
 def shrink(s):
